@@ -258,6 +258,7 @@ func (s *spy) Set(k interface{}, v interface{})       { s.inner.Set(k, v) }
 func (s *spy) Delete(k interface{})                   { s.inner.Delete(k) }
 
 type group struct {
+	deep    int
 	g       *mux.WorkerGrp
 	spies   []*spy // nil in built-in-constructor mode
 	name    string
@@ -265,12 +266,15 @@ type group struct {
 	workers int
 }
 
-func newGroup(r interface{ Intn(int) int }) *group {
+func newGroup(r interface{ Intn(int) int }) *group { return newGroupDeep(r, 64) }
+
+func newGroupDeep(r interface{ Intn(int) int }, deep int) *group {
 	workers := 1 + r.Intn(5)
 	lru := r.Intn(2) == 0
 	capacity := 1 + r.Intn(4)
 	gr := &group{workers: workers}
-	opts := []mux.Option{mux.WithSize(workers), mux.WithDeep(64)}
+	opts := []mux.Option{mux.WithSize(workers), mux.WithDeep(deep)}
+	gr.deep = deep
 	switch r.Intn(3) {
 	case 0: // built-in constructors, observed through the DoGet probe
 		if lru {
@@ -640,7 +644,7 @@ func streamCase(k *engine.Case) {
 
 func gateCase(k *engine.Case) {
 	r := k.R
-	g := newGroup(r)
+	g := newGroupDeep(r, []int{64, 64, 1, 2, 3}[r.Intn(5)])
 	st := newStore()
 	keys, extreme := keyPool(r)
 	if extreme {
@@ -726,6 +730,9 @@ func gateCase(k *engine.Case) {
 		id := 101 + i
 		// the op id is published when the callback runs: callbacks run serially on the worker,
 		// and every queued op carries its id in its data value
+		st.mu.Lock()
+		logBefore := len(st.log)
+		st.mu.Unlock()
 		o := d.Spawn(fmt.Sprintf("q%d:%s", id, opNames[op]), func() any {
 			v, err := runOp(g, st, op, key, id)
 			return opRes{v, err}
@@ -734,7 +741,21 @@ func gateCase(k *engine.Case) {
 			return
 		}
 		if o.Done() {
-			k.Fail("order", "%s(%v) returned while the worker is blocked in an earlier operation on the same key", opNames[op], key)
+			// only a refusal because the worker's queue is full may come back early, and a
+			// refused operation must not have reached the store
+			res, _ := o.Result().(opRes)
+			if len(queued) >= g.deep && res.err == mux.ErrQFull {
+				k.Count("gate_refused_queue_full", 1)
+				st.mu.Lock()
+				touched := len(st.log)
+				st.mu.Unlock()
+				if touched != logBefore {
+					k.Fail("refused-op-touched-store", "%s(%v) was refused (queue full) but %d store callback(s) ran for it", opNames[op], key, touched-logBefore)
+					return
+				}
+				continue
+			}
+			k.Fail("order", "%s(%v) returned (%v, %v) while the worker is blocked in an earlier operation on the same key", opNames[op], key, res.v, res.err)
 			return
 		}
 		k.Logf("queued #%d %s(%v)", id, opNames[op], key)
